@@ -34,12 +34,25 @@ ASSUMPTIONS = [
 
 CTXS = prog.CLS_NAMES
 SUBP = {"cls": "inherit", "sources": {"IQ": ["tbl", "tq", None, None]}, "steps": [["from_", [["src", "IQ"]]], ["select", [["col", "IQ", "k1"], ["col", "IQ", "k2"]]]]}
+SUBP2 = {"cls": "inherit", "sources": {"IQ2": ["tbl", "tq2", None, None]}, "steps": [["from_", [["src", "IQ2"]]], ["select", [["col", "IQ2", "k1"], ["col", "IQ2", "k2"]]]]}
+SUBU = {"cls": "inherit", "sources": {"IQ": ["tbl", "tq", None, None], "IQ2": ["tbl", "tq2", None, None]},
+        "steps": [["from_", [["src", "IQ"]]], ["select", [["col", "IQ", "k1"]]], ["union", [["q", {"cls": "inherit", "sources": {}, "steps": [["from_", [["src", "IQ2"]]], ["select", [["col", "IQ2", "k1"]]]]}]]]]}
+AUTO = ("QN", "QN2", "UN")  # query-valued sources without an alias of their own: the statement names them sq0, sq1, ... in the order they are added
 POOL = {
     "P": ["tbl", "tp", None, None], "B": ["tbl", "tb", None, None], "D": ["tbl", "td", None, None],
     "A": ["tbl", "ta", None, "xa"], "P2": ["tbl", "tp", None, "p2"], "S": ["tbl", "ts", "sc", None], "SA": ["tbl", "ts", "sc", "sa"],
     "N": ["tbl", "tn", None, None], "NA": ["tbl", "tn", None, "na"],
-    "Q": ["sub", SUBP, "qq"], "QN": ["sub", SUBP, None], "C": ["cte", "cc"], "F": ["tbl", "tf", None, None],
+    "Q": ["sub", SUBP, "qq"], "QN": ["sub", SUBP, None], "QN2": ["sub", SUBP2, None], "UN": ["sub", SUBU, None], "C": ["cte", "cc"], "F": ["tbl", "tf", None, None],
 }
+
+
+def auto_names(case):
+    """un-aliased query sources in the order the from_ / join calls add them -> sq0, sq1, ..."""
+    out = {}
+    for st_ in case["steps"]:
+        if st_[0] in ("from_", "join") and st_[1] and st_[1][0][0] == "src" and st_[1][0][1] in AUTO and st_[1][0][1] not in out:
+            out[st_[1][0][1]] = "sq%d" % len(out)
+    return out
 
 
 def qual_name(key, auto="sq0"):
@@ -128,7 +141,7 @@ def program(draw):
     sources = []
     meta = {"kind": kind}
     if kind == "select":
-        first = draw(st.sampled_from(table_keys + ["Q", "QN", "C"]))
+        first = draw(st.sampled_from(table_keys + ["Q", "QN", "C", "UN"]))
         if first == "C":
             steps.append(["with_", [["q", SUBP], ["py", "cc"]]])
         steps.append(["from_", [["src", first]]])
@@ -139,7 +152,7 @@ def program(draw):
                 steps.append(["from_", [["src", second]]])
                 sources.append(second)
         for _ in range(draw(st.integers(0, 2))):
-            cand = [k for k in table_keys + ["Q"] if k not in sources and (POOL[k][0] != "tbl" or POOL[k][3] or all(POOL[s][0] != "tbl" or POOL[s][1] != POOL[k][1] or POOL[s][3] for s in sources))]
+            cand = [k for k in table_keys + ["Q", "QN", "QN2", "UN"] if k not in sources and (POOL[k][0] != "tbl" or POOL[k][3] or all(POOL[s][0] != "tbl" or POOL[s][1] != POOL[k][1] or POOL[s][3] for s in sources))]
             cand = [k for k in cand if not (POOL[k][0] == "tbl" and not POOL[k][3] and any(POOL[s][0] == "tbl" and POOL[s][1] == POOL[k][1] and not POOL[s][3] for s in sources))]
             if not cand:
                 break
@@ -274,7 +287,7 @@ def expected(case, key, pos):
     """-> None (bare) | qualifier name | ('either', name)"""
     if key is None:
         return None
-    name = qual_name(key)
+    name = qual_name(key, auto_names(case).get(key, "sq0"))
     if pos in BARE_POS:
         # SQL wants these bare; the property lets a reference to an aliased source carry its alias everywhere
         return ("either", name) if is_aliased(key) else None
@@ -309,7 +322,7 @@ def check_program(case):
         # one name, two references in operand order: the qualifiers must be those of the two sources, in that order
         idx = [i for i, t in enumerate(toks) if t.kind == "qid" and t.value == corr[0][0]]
         got = [qualifier_before(toks, i) for i in idx]
-        want = [qual_name(o[1]) for o in corr]
+        want = [qual_name(o[1], auto_names(case).get(o[1], "sq0")) for o in corr]
         if got != want:
             fail = "missing_qualifier" if None in got else "wrong_qualifier"
             out.append((mksig("any", case["kind"], "correlated", "same_name", fail),
@@ -398,10 +411,19 @@ def valid_case(case):
         ncorr = [o[2] for o in case["occ"] if o[2] in ("corr_outer", "corr_inner")]
         if sorted(ncorr) not in ([], ["corr_inner", "corr_outer"]):
             return False
+        if ncorr:
+            co = next(o for o in case["occ"] if o[2] == "corr_outer")
+            ci = next(o for o in case["occ"] if o[2] == "corr_inner")
+            if co[1] == ci[1] or co[1] not in case["sources"] or ci[1] not in ("N", "NA") or co[0] != ci[0]:
+                return False  # the outer column belongs to a source of the statement, the inner one to the subquery's own table
         if len(set(names)) != len(names) or any(not _re.fullmatch(r"f[0-9]+", n) for n in names):
             return False
         if any('"%s"' % o[0] not in txt for o in case["occ"]):
             return False
+        # every recorded occurrence names the source the program really takes the column from
+        for name, key, pos in case["occ"]:
+            if key is not None and ('["col", "%s", "%s"]' % (key, name)) not in txt and ('["py", "%s"]' % name) not in txt:
+                return False
         if bool(case.get("foreign")) != ('["col", "F",' in txt):
             return False  # the recorded facts (a reference to a table outside the statement) must still describe the program
         if case["kind"] in ("select", "delete") and not any(st_[0] == "from_" for st_ in case["steps"]):
